@@ -271,8 +271,8 @@ func checkCmd(args []string) int {
 			_, how := replayNative(*repo, *root, rr.Run, w, wp)
 			logb, _ := os.ReadFile(strings.TrimSuffix(wp, ".json") + ".replay.log")
 			switch {
-			case strings.Contains(string(logb), "VF-FAIL"):
-				inconclusive = append(inconclusive, fmt.Sprintf("%s: translation validation: an assertion discharged by the executor fails in the native run of the same values (%s)", rr.Run.Fn, firstFail(string(logb))))
+			case ownedFail(spec.Prefixes, string(logb)) != "":
+				inconclusive = append(inconclusive, fmt.Sprintf("%s: translation validation: an assertion discharged by the executor fails in the native run of the same values (%s)", rr.Run.Fn, ownedFail(spec.Prefixes, string(logb))))
 			case strings.Contains(string(logb), "VF-DONE"):
 				validated++
 			default:
@@ -342,6 +342,16 @@ func ownsAssertion(prefixes []string, id string) bool {
 		}
 	}
 	return false
+}
+
+// ownedFail: the first natively failed assertion that the running check owns.
+func ownedFail(prefixes []string, log string) string {
+	for _, l := range strings.Split(log, "\n") {
+		if strings.HasPrefix(l, "VF-FAIL ") && ownsAssertion(prefixes, strings.TrimSpace(strings.TrimPrefix(l, "VF-FAIL "))) {
+			return l
+		}
+	}
+	return ""
 }
 
 func firstFail(log string) string {
